@@ -26,6 +26,29 @@ def load(ctx):
     return so
 
 
+class _SeededRandomModule(object):
+    """stands in for the `random` module inside pysyncobj.syncobj: every draw (module functions AND
+    `random.SystemRandom()`, which the code uses for the start value of commandsLocalCounter) comes from one private
+    `random.Random(seed)`, so a run replays from VERIF_SEED"""
+
+    def __init__(self, seed):
+        import random as _random
+        self._mod = _random
+        self._r = _random.Random(seed)
+
+    def SystemRandom(self, *a):
+        return self._r
+
+    def Random(self, *a):
+        return self._r
+
+    def __getattr__(self, name):
+        r = self.__dict__["_r"]
+        if hasattr(r, name):
+            return getattr(r, name)
+        return getattr(self.__dict__["_mod"], name)
+
+
 @contextlib.contextmanager
 def real_runtime(so, seed=None):
     """Run pysyncobj on its GENUINE clock and PRNG for the duration of the block, whatever earlier
@@ -42,7 +65,7 @@ def real_runtime(so, seed=None):
     so.monotonicTime = monotonic
     tr.monotonicTime = monotonic
     tc.monotonicTime = monotonic
-    so.random = _random if seed is None else _random.Random(seed)   # same API, private state
+    so.random = _random if seed is None else _SeededRandomModule(seed)   # same API, private state
     try:
         yield
     finally:
@@ -144,6 +167,8 @@ def to_v(x):
         return x
     if isinstance(x, int):
         return x
+    if isinstance(x, float):         # not a modelled value (e.g. a computed remaining time): shows up as a difference
+        return {"float": round(x, 2)}
     if isinstance(x, tuple):
         return {"t": [to_v(y) for y in x]}
     if isinstance(x, list):          # *args given as a list on the applying side (`args = []`)
